@@ -72,6 +72,8 @@ func getProxyRig() *proxyRig {
 			fmt.Fprintf(&sb, "@@%s$%s\n", c16PageName(mask), strings.Join(c16Subset(mask), ","))
 		}
 		sb.WriteString("/blocked-page.html\n")
+		// cosmetic rules for the content script, and an exception that covers the front page of the host only
+		sb.WriteString("##.e2e-generic\nlocalhost##.e2e-specific\n@@||localhost^|$generichide\n")
 		f, err := os.CreateTemp("", "verif-proxy-filter-*.txt")
 		if err != nil {
 			r.err = err
@@ -112,7 +114,8 @@ var proxyTagRe = regexp.MustCompile(`\n<script src="//` + regexp.QuoteMeta(proxy
 
 // fetch requests path through the proxy with the given Accept header ("" = none).
 func (r *proxyRig) fetch(path, accept string) (body []byte, hdr http.Header, err error) {
-	req, err := http.NewRequest(http.MethodGet, r.backend.URL+path, nil)
+	// the web server is addressed by name (cosmetic rules cannot name an address)
+	req, err := http.NewRequest(http.MethodGet, strings.Replace(r.backend.URL, "127.0.0.1", "localhost", 1)+path, nil)
 	if err != nil {
 		return nil, nil, err
 	}
@@ -136,6 +139,26 @@ func splitInjected(body []byte) (before []byte, option int, after []byte, found 
 	}
 	n, _ := strconv.Atoi(string(body[loc[2]:loc[3]]))
 	return body[:loc[0]], n, body[loc[1]:], true
+}
+
+var proxyScriptSrcRe = regexp.MustCompile(`<script src="(//` + regexp.QuoteMeta(proxyInjectionHost) + `/content-script\.js\?[^"]*)"`)
+
+// fetchScript requests the content script a page's injected tag points to.
+func (r *proxyRig) fetchScript(page []byte) (script []byte, err error) {
+	m := proxyScriptSrcRe.FindSubmatch(page)
+	if m == nil {
+		return nil, fmt.Errorf("no content-script tag")
+	}
+	req, err := http.NewRequest(http.MethodGet, "http:"+strings.ReplaceAll(string(m[1]), "&amp;", "&"), nil)
+	if err != nil {
+		return nil, err
+	}
+	resp, err := r.client.Do(req)
+	if err != nil {
+		return nil, err
+	}
+	defer resp.Body.Close()
+	return io.ReadAll(resp.Body)
 }
 
 var proxyAccepts = []string{"text/html,application/xhtml+xml,application/xml;q=0.9,*/*;q=0.8", "*/*", "", "application/json, text/html;q=0.5"}
